@@ -30,8 +30,14 @@
 (*       row-group pruning trusts parquet min/max statistics; these skip   *)
 (*       NaN, so a row group {v, NaN} is dropped for  != v  /  not_in{v}.  *)
 (*   ValidateFirst = FALSE  _scan_table returns before parsing the filter  *)
-(*       when the table has no data files, and scan_batches builds the     *)
-(*       expression only after the "no files left" return.                 *)
+(*       when the table has no data files, scan_batches builds the         *)
+(*       expression only after the "no files left" return, and the parser  *)
+(*       turns every condition that is not a 2-tuple (or None) into an     *)
+(*       equality value, leaving it to pyarrow to choke on it - which only *)
+(*       happens if some file is actually evaluated.                       *)
+(*     TRUE models the repair: the parser itself rejects non-scalar        *)
+(*       comparison values, non-iterable in/not_in values and container    *)
+(*       conditions, and parse + build precede every early return.         *)
 (***************************************************************************)
 EXTENDS Filter
 
@@ -152,8 +158,11 @@ ParseCond(c) ==
         [stage |-> "ok", exprs |-> <<TE("is_not_null", "none", <<>>)>>]
     ELSE LET o == ParseOp(c.op, c.opIsStr) IN                       \* 74
          IF o = "Raise" THEN [stage |-> "parse", exprs |-> <<>>]
+         ELSE IF ValidateFirst /\ ((o \in SetOps /\ c.vk \in {"scalar", "none"}) \/ (o \in CmpOps /\ c.vk \in {"seq", "hetero", "homog"}))
+              THEN [stage |-> "parse", exprs |-> <<>>]            \* (repair) value kind checked by the parser
          ELSE [stage |-> "ok", exprs |-> <<TE(o, c.vk, IF c.vk = "none" THEN <<NULL>> ELSE c.xs)>>]   \* 75
   ELSE IF c.vk = "none" THEN [stage |-> "parse", exprs |-> <<>>]    \* 76-84: {"col": None} -> ValueError
+  ELSE IF ValidateFirst /\ c.vk \in {"seq", "hetero", "homog"} THEN [stage |-> "parse", exprs |-> <<>>]   \* (repair) container as condition
   ELSE [stage |-> "ok", exprs |-> <<TE("==", c.vk, c.xs)>>]         \* 85-87: ANY other object becomes an equality value
 
 \* filters.py:141-155: `for v in expr.value` on a non-iterable -> TypeError;
